@@ -167,11 +167,22 @@ def _heartbeat(sub, case):
     faulthandler.dump_traceback_later(CASE_TIMEOUT_S, exit=True)
 
 
+def _disarm():
+    """the watchdog only covers the execution of one case: it is disarmed between sub-checks (a custom sub-check such
+    as the atheris campaign runs for minutes without going through _guard and has its own time-out)"""
+    try:
+        import faulthandler
+        faulthandler.cancel_dump_traceback_later()
+    except Exception:  # noqa
+        pass
+
+
 def _guard(sub, ctx, case):
     """run fn on one case, recording the failure for the replay file"""
     _heartbeat(sub, case)
     try:
         sub.fn(case, ctx)
+        _disarm()
     except BaseException as e:  # noqa
         if isinstance(e, (KeyboardInterrupt, SystemExit)):
             raise
@@ -186,6 +197,7 @@ def run_sub(sub, ctx):
     from hypothesis import given, settings, HealthCheck, Phase, seed as hseed
     ctx.last_failure = None
     tier = ctx.tier
+    _disarm()
     try:
         if sub.kind == "hyp":
             n = max(1, -(-sub.budget[tier] // ctx.nshards))
@@ -223,8 +235,10 @@ def run_sub(sub, ctx):
                 phases=[Phase.generate, Phase.shrink]))
         elif sub.kind == "custom":
             sub.run(ctx)
+        _disarm()
         return None
     except BaseException as e:  # noqa
+        _disarm()
         if isinstance(e, (KeyboardInterrupt, SystemExit)):
             raise
         if ctx.last_failure is not None:
